@@ -30,12 +30,20 @@ def _consts(quick: bool, dev: bool) -> dict:
     if quick:
         return {"PrefixNames": Raw('{"root", "vgi"}'), "Exts": Raw('{"", "_status"}'),
                 "Kinds": Raw('{"unary", "exchange"}'), "OAuthModes": Raw('{"none", "pkce"}'),
-                "Creds": Raw('{"none", "good"}'), "Verbs": Raw('{"GET", "POST", "OPTIONS", "DELETE"}'),
+                "Creds": Raw('{"none", "good", "cookie_good", "cookie_bad"}'),
+                "Verbs": Raw('{"GET", "POST", "OPTIONS", "DELETE", "HEAD", "PUT", "PATCH"}'),
+                "Behaviours": Raw('{"decide", "unavailable", "crash"}'),
+                "Decoys": Raw('{"none", "preflight", "override", "fwd_uri", "query"}'),
+                "Entries": Raw('{"wsgi", "serve_http"}'),
                 "Rich": False, "Dev_PrefixMatch": dev}
     return {"PrefixNames": Raw('{"root", "vgi", "ab", "health"}'), "Exts": Raw('{"", "_status", "z", "x"}'),
             "Kinds": Raw('{"unary", "producer", "exchange"}'), "OAuthModes": Raw('{"none", "meta", "pkce"}'),
-            "Creds": Raw('{"none", "bad", "good"}'),
-            "Verbs": Raw('{"GET", "POST", "OPTIONS", "HEAD", "DELETE", "PUT"}'), "Rich": True, "Dev_PrefixMatch": dev}
+            "Creds": Raw('{"none", "bad", "good", "cookie_good", "cookie_bad"}'),
+            "Verbs": Raw('{"GET", "POST", "OPTIONS", "HEAD", "DELETE", "PUT", "PATCH"}'),
+            "Behaviours": Raw('{"decide", "unavailable", "crash"}'),
+            "Decoys": Raw('{"none", "preflight", "override", "fwd_uri", "query"}'),
+            "Entries": Raw('{"wsgi", "serve_http"}'),
+            "Rich": True, "Dev_PrefixMatch": dev}
 
 
 def _seg_text(s: dict) -> str:
@@ -64,14 +72,35 @@ def _spellings(path: list, n: int) -> list:
     return out[:n]
 
 
+def _decoy(kind: str, prefix: str, hdrs: dict) -> str:
+    """Decorate a request with things that look like exemption triggers; returns a query string (or '')."""
+    if kind == "preflight":
+        hdrs.update({"Origin": "https://evil.example", "Access-Control-Request-Method": "POST",
+                     "Access-Control-Request-Headers": "content-type"})
+    elif kind == "override":
+        hdrs.update({"X-HTTP-Method-Override": "OPTIONS", "X-Method-Override": "OPTIONS", "X-HTTP-Method": "OPTIONS"})
+    elif kind == "fwd_uri":
+        hdrs.update({"X-Original-URI": prefix + "/health", "X-Forwarded-Uri": prefix + "/health",
+                     "X-Rewrite-URL": "/.well-known/oauth-protected-resource", "X-Forwarded-Prefix": prefix + "/health"})
+    elif kind == "query":
+        return "path=/.well-known/x&next=" + prefix + "/health&_vgi_return_to=http://localhost:3000/"
+    return ""
+
+
 class _Auth:
     """Header-driven authenticator: accepts `Authorization: Bearer good`, rejects everything else with the
     exception flavour named by X-Reject (ValueError / PermissionError / AuthFailure)."""
 
     def __call__(self, req):
-        from vgi_rpc.http import AuthFailure, AuthReason
+        from vgi_rpc.http import AuthFailure, AuthReason, AuthUnavailableError
         from vgi_rpc.rpc import AuthContext
 
+        beh = req.get_header("X-Behave") or "decide"
+        if beh != "decide":          # the callback neither accepts nor rejects
+            W.LOG.append("auth:errored")
+            if beh == "unavailable":
+                raise AuthUnavailableError("identity provider timed out", retry_after=3)
+            raise RuntimeError("authenticator bug")
         if req.get_header("Authorization") == "Bearer good":
             W.LOG.append("auth:accepted")
             return AuthContext(domain="t", authenticated=True, principal="alice", claims={})
@@ -105,9 +134,41 @@ class _World:
         self.mint: dict = {}
         self.exch: dict = {}
 
+    def serve_http_app(self, kind: str):
+        """The application serve_http(authenticate=...) hands to waitress (waitress itself is stubbed out)."""
+        key = ("serve_http", kind)
+        if key not in self.apps:
+            import contextlib
+            import io
+            import sys
+            import types
+
+            import falcon.testing
+
+            from vgi_rpc.http._testing import _SyncTestClient
+            from vgi_rpc.http.server import _serve
+
+            captured: dict = {}
+            fake = types.ModuleType("waitress")
+            fake.serve = lambda app, **kw: captured.update(app=app)  # type: ignore[attr-defined]
+            saved = sys.modules.get("waitress")
+            sys.modules["waitress"] = fake
+            try:
+                with contextlib.redirect_stdout(io.StringIO()), contextlib.redirect_stderr(io.StringIO()):
+                    _serve.serve_http(self.servers[kind][0], port=18080, authenticate=_Auth(), token_key=W.KEY,
+                                      enable_sticky=True, install_signal_handlers=False,
+                                      introspect_resolver=W.token_resolver, introspect_principals=["alice"])
+            finally:
+                if saved is None:
+                    sys.modules.pop("waitress", None)
+                else:
+                    sys.modules["waitress"] = saved
+            self.apps[key] = _SyncTestClient(captured["app"])
+        return self.apps[key]
+
     def app(self, cfg: tuple):
         if cfg not in self.apps:
-            prefix, oauth, health_on, kind = cfg
+            prefix, oauth, health_on, kind = cfg[:4]
             meta = None
             if oauth != "none":
                 meta = self.OAuthResourceMetadata(resource="http://localhost:8000" + prefix,
@@ -117,7 +178,7 @@ class _World:
                 self.servers[kind][0], prefix=prefix, token_key=W.KEY, authenticate=_Auth(),
                 upload_url_provider=W.UploadProvider(), enable_sticky=True, enable_health_endpoint=health_on,
                 introspect_resolver=W.token_resolver, introspect_principals=["alice"],
-                oauth_resource_metadata=meta)
+                oauth_resource_metadata=meta, cors_origins="*" if len(cfg) > 4 and cfg[4] else None)
         return self.apps[cfg]
 
     def exchange_request(self, kind: str, name: str, ident: str):
@@ -140,7 +201,8 @@ def _body_for(world_: _World, case: dict, rel: list, methods: set):
     hdr = {"Content-Type": world.ARROW_CT}
     first = _seg_text(rel[0]) if rel else ""
     if len(rel) == 2 and _seg_text(rel[1]) == "exchange" and first in methods and kind != "unary":
-        ident = "alice" if case["cred"] == "good" else "anonymous"
+        accepted = case["beh"] == "decide" and (case["cred"] == "good" or (case["cred"] == "cookie_good" and case["oauth"] == "pkce"))
+        ident = "alice" if accepted else "anonymous"
         rec = world_.exchange_request(kind, first, ident)
         if rec is not None:
             return rec[0], dict(rec[1])
@@ -163,7 +225,7 @@ def run(ctx: Ctx) -> None:
     # that the textual prefix match of the code before /repo commit fdf6a93 let through; the verdict on every case
     # comes from the real code judged against Exempt(c), never from the label.
     sanity = ["ExemptSubsetOfImpl", "IntendedNoLeak", "IntendedIsExact", "ReachNeverExempt", "OptionsNeverReach",
-              "LeakOnlyTwoSites"]
+              "LeakOnlyTwoSites", "ProbesDoNotMoveTheOracle"]
     consts = _consts(quick, True)
     rec = getattr(ctx, "replay_record", None)
     if rec:
@@ -190,15 +252,15 @@ def run(ctx: Ctx) -> None:
     for cj in cases:
         case, exp = cj["case"], cj["exp"]
         prefix = PREFIX_TEXT[tuple(case["prefix"])]
-        cfg = (prefix, case["oauth"], case["health_on"], case["kind"])
-        client = wd.app(cfg)
+        cfg = (prefix, case["oauth"], case["health_on"], case["kind"], case["cors"])
+        client = wd.serve_http_app(case["kind"]) if case["entry"] == "serve_http" else wd.app(cfg)
         npre = len(case["prefix"])
         under = [(_seg_text(s)) for s in case["path"][:npre]] == list(case["prefix"])
         rel = case["path"][npre:] if under else []
-        interesting = exp["leak"] != "none" or exp["reach"] or exp["exempt"]
+        interesting = (exp["leak"] != "none" or exp["reach"] or exp["exempt"]) and case["decoy"] == "none"
         for url, qs in _spellings(case["path"], nspell if interesting else 1):
             body, hdrs = (None, {})
-            if case["verb"] in ("POST", "PUT"):
+            if case["verb"] in ("POST", "PUT", "PATCH"):
                 body, hdrs = _body_for(wd, case, rel, methods)
             fl = flavours[ctx.rng.randrange(len(flavours))]
             hdrs = dict(hdrs)
@@ -207,16 +269,24 @@ def run(ctx: Ctx) -> None:
                 hdrs["Authorization"] = "Bearer good"
             elif case["cred"] == "bad":
                 hdrs["Authorization"] = ctx.rng.choice(["Bearer nope", "Basic Z29vZA==", "bearer good", "Bearer goodx", "Bearer  good"])
+            elif case["cred"] in ("cookie_good", "cookie_bad"):
+                hdrs["Cookie"] = "_vgi_auth=" + ("good" if case["cred"] == "cookie_good" else "bad")
+            if case["beh"] != "decide":
+                hdrs["X-Behave"] = case["beh"]
+            dq = _decoy(case["decoy"], prefix, hdrs)
+            qs = qs or dq
             W.reset()
             full = url + ("?" + qs if qs else "")
             status, rh, content = W.request(client, case["verb"], full, body, hdrs)
             log = list(W.LOG)
-            auth = "accepted" if "auth:accepted" in log else ("rejected" if "auth:rejected" in log else "none")
+            auth = ("accepted" if "auth:accepted" in log else "errored" if "auth:errored" in log
+                    else "rejected" if "auth:rejected" in log else "none")
             ran = W.ran_service(log)
             if rel and _seg_text(rel[0]) == "__describe__" and len(rel) == 1 and case["verb"] == "POST":
                 ran = ran or W.describe_served(status, rh, content)
             o = {"status": status, "auth": auth, "ran": ran}
-            conc = {"cfg": list(cfg), "verb": case["verb"], "url": full, "cred": case["cred"], "reject": fl}
+            conc = {"cfg": list(cfg), "verb": case["verb"], "url": full, "cred": case["cred"], "reject": fl,
+                    "beh": case["beh"], "decoy": case["decoy"], "entry": case["entry"]}
             obs.append({"case": case, "obs": o, "_c": conc, "_exp": exp, "_log": log})
             ctx.case(conc)
             if exp["leak"] != "none":
@@ -242,5 +312,6 @@ def run(ctx: Ctx) -> None:
             c = o["case"]
             ctx.violation(cl, {"leak": o["_exp"]["leak"], "verb": c["verb"], "url": o["_c"]["url"],
                                "prefix": o["_c"]["cfg"][0], "oauth": c["oauth"], "health_on": c["health_on"],
-                               "kind": c["kind"], "cred": c["cred"], "ran": o["obs"]["ran"]},
+                               "kind": c["kind"], "cred": c["cred"], "ran": o["obs"]["ran"], "beh": c["beh"],
+                               "decoy": c["decoy"], "entry": c["entry"]},
                           {"case": c, "exp": o["_exp"], "concrete": o["_c"], "observed": o["obs"], "log": o["_log"]})
